@@ -36,9 +36,11 @@ def _install():
             return orig_run(self, time_discretization, simulation_time, motor_control=motor_control, stop_condition=stop_condition)
         key = id(pt)
         tr = _state['traces'].get(key)
-        if tr is None and _state['done'] >= MAX_TRACES:
-            import pytest
-            pytest.exit('verif: enough executions recorded', returncode=0)
+        if tr is None:
+            small = sum(1 for t in _state['traces'].values() if 2 <= len(t['pt'].time) <= MAX_INSTANTS and sum(o['op'] == 'run' for o in t['ops']) >= 2)
+            if _state['done'] >= MAX_TRACES or small >= KEEP:
+                import pytest
+                pytest.exit('verif: enough executions recorded', returncode=0)
         if tr is None:
             tr = {'pt': pt, 'ops': [{'op': 'new_solver', 'sid': 1}], 'solvers': {id(self): 1}, 'loads': {}}
             _state['done'] += 1
